@@ -594,6 +594,11 @@ theorem gen_structure_derived :
     richPolarBinds = true ∧ slicesPolarBinds = true ∧ exact1dBinds = true ∧ exact2dBinds = true := by
   decide
 
+/-- `propagation.focus` / `unfocus` pad with `fttools.pad2d(array = wavefunction, Q = Q)` before the centred FFT, so the
+padded route inherits `pad_origin` and `fft_route_origin` -/
+theorem gen_structure_focus_pad : focusPadBinds = true := by
+  decide
+
 /-- user-assigned coordinates: when the coordinate vector is `(k − c0)·dx` for ANY in-range `c0` (not only `len // 2`) and
 `dx ≠ 0`, every argmin meeting its specification is `c0` — `Slices` follows the zero of the coordinates it is given -/
 theorem slices_follow_user_origin (am : (Int → Rat) → Int → Int) (ham : IsArgminAbs am) (len c0 : Int)
